@@ -15,6 +15,7 @@ R6  a CONNACK on an established connection reaches neither send_stored nor clear
 import re
 
 import conn
+import explore
 
 ADD = "GenericStore::<PacketIdType>::add"
 ERASE = "GenericStore::<PacketIdType>::erase"
@@ -293,4 +294,59 @@ def check(run, F, tier):
         r7.violation("anchor", "no IndexMap operation found in GenericStore (anchor lost)")
     else:
         r7.ok("indexmap-ops", {"indexmap_calls": n})
+    # ------------------------------------------------------------------ R8: the store removes by kind
+    r8 = run.rule("C06-R8", "GenericStore::erase / erase_publish remove an entry only after testing the kind of packet stored under the id", floor=2)
+    RESP = "mqtt::packet::enum_store_packet::ResponsePacket"
+
+    def inl_store(exx, callee, info):
+        return callee.get("impl_self", "").startswith("mqtt::connection::store::GenericStore<") or callee.get("kind") == "Closure"
+    REMOVE_RE = re.compile(r"::(shift_remove\w*|swap_remove\w*|remove|remove_entry)$")
+    rvars = [v["name"] for v in F.adt(RESP)["variants"]]
+    for name in ("erase", "erase_publish"):
+        cands = [g for g in F.fns.values() if g.get("name") == name and g.get("impl_self", "").startswith("mqtt::connection::store::GenericStore<")]
+        if len(cands) != 1:
+            r8.violation(name, "GenericStore::%s not found (anchor lost)" % name)
+            continue
+        g = cands[0]
+        an = None
+        for i_ in range(1, g["argc"] + 1):
+            if g["locals"][i_] == RESP:
+                an = i_
+        problems8 = []
+        nrem = 0
+        # evaluated per kind of stored packet: the stored packet's response_packet() is fixed to one concrete variant per
+        # run (and, for erase, the requested kind to each variant in turn); whatever the idiom (==, matches!, a closure
+        # handed to a shared helper) the outcome is read off what the run does
+        for stored in rvars:
+            for asked in (rvars if name == "erase" else [None]):
+                def hook(exx, st, pth, args, argterms, info, stored=stored):
+                    if pth.endswith("::response_packet"):
+                        return ("agg", RESP, stored, ())
+                    return None
+
+                def setup8(exx, st, fr, asked=asked):
+                    if asked is not None and an is not None:
+                        st.heap[(fr.root(an), ())] = ("agg", RESP, asked, ())
+                ex8 = explore.Explorer(F, inline_pred=inl_store, opaque_hook=hook)
+                for p in ex8.run(g["path"], setup=setup8):
+                    if p.kind != "return":
+                        continue
+                    calls_ = [e for e in p.effects if e[0] == "call"]
+                    removed = any(REMOVE_RE.search(e[1]) and "indexmap" in e[1] for e in calls_)
+                    looked = any(e[1].endswith("::response_packet") for e in calls_)
+                    if removed:
+                        nrem += 1
+                    want = (stored == asked) if name == "erase" else (stored.endswith("Puback") or stored.endswith("Pubrec"))
+                    if removed and not looked:
+                        problems8.append("removes the entry without looking at the kind of the stored packet")
+                    elif removed and not want:
+                        problems8.append("removes a stored packet awaiting %s%s" % (stored, (" when asked for %s" % asked) if asked else " (not a PUBLISH)"))
+                    elif looked and want and not removed:
+                        problems8.append("keeps a stored packet awaiting %s%s although it was found" % (stored, (" when asked for %s" % asked) if asked else ""))
+        if nrem == 0:
+            r8.violation(name, "GenericStore::%s has no removing path (anchor lost)" % name)
+        elif problems8:
+            r8.violation(name, "GenericStore::%s %s" % (name, sorted(set(problems8))[0]), {"all": sorted(set(problems8))[:8]}, site="%s:%s" % (g["file"], g["line"]))
+        else:
+            r8.ok(name, {"removing_runs": nrem})
     conn.prune_path_cache(F)
